@@ -131,7 +131,12 @@ def case_misc(ch):
                 # CPU time consumed by another thread of the process: the four clocks are four different host clocks
                 ops.append(['burn', ch.pick((20, 50))])
             ops.append(['clock', ch.pick((0, 1, 1, 2, 3)), ch.pick((0, 1, 1000, 1000000, 10000000, 1 << 40)), bool(ch.below(2)), ch.below(4) == 0])
+            if ch.below(3) == 0:
+                # resolution of the same clocks (clock_res_get): the host's clock_getres, 8 bytes stored, unknown ids refused
+                ops.append(['clockres', ch.pick((0, 1, 2, 3)), bool(ch.below(2)), ch.below(4) == 0])
         elif k < 6:
+            if ch.below(3) == 0:
+                ops.append(['badclockres', ch.pick((4, 5, 255, 0x7fffffff, 0x80000000, 0xffffffff, 4 + ch.bits(31))), bool(ch.below(2))])
             ops.append(['badclock', ch.pick((4, 5, 255, 0x7fffffff, 0x80000000, 0xffffffff, 4 + ch.bits(31))), bool(ch.below(2))])
         else:
             ops.append(['random', ch.pick((0, 1, 63, 64, 255, 256, 257, 300, 4096, 65536, 1 << 20, 1 + ch.below(5000), 256 * (1 + ch.below(9)))),
@@ -171,6 +176,24 @@ def run_misc(case):
                     if v < last_mono:
                         return 'clock-monotonic', 'monotonic clock went backwards: %d after %d' % (v, last_mono)
                     last_mono = v
+            elif op[0] == 'clockres':
+                _, cid, unstable, edge = op
+                cell = (64 * 65536 - 8) if edge else W.RES
+                ag.fill(W.RES, 24)
+                want = ag.res(cid)
+                rc = ag.call('clock_res_get', unstable, cid, cell)
+                v = ag.peek_u64(cell)
+                if rc != 0:
+                    return 'clock', 'clock_res_get(%d) failed with errno %d' % (cid, rc)
+                if v != want:
+                    return 'clock-res', 'clock_res_get(%d) = %d ns, clock_getres of the same host clock in the same process gives %d ns' % (cid, v, want)
+                if ag.peek(W.RES + 8, 8) != b'\xcd' * 8:
+                    return 'overwrite', 'clock_res_get stored more than 8 bytes'
+            elif op[0] == 'badclockres':
+                _, cid, unstable = op
+                rc = ag.call('clock_res_get', unstable, cid, W.RES)
+                if rc != W.E['INVAL']:
+                    return 'clock-id', 'clock_res_get with unknown clock id %d returned %d, expected EINVAL' % (cid, rc)
             elif op[0] == 'badclock':
                 _, cid, unstable = op
                 rc = ag.call('clock_time_get', unstable, cid, 0, W.RES)
@@ -386,8 +409,12 @@ def classify(case):
         for op in case['ops']:
             if op[0] == 'random' and op[1] > 256 and op[1] % 256:
                 out.append('random_len>256_not_multiple')
-            if op[0] == 'badclock':
+            if op[0] in ('badclock', 'badclockres'):
                 out.append('invalid_clock_id')
+            if op[0] == 'clockres':
+                out.append('clock_resolution')
+            if op[0] == 'clockres' and op[3]:
+                out.append('result_or_buffer_ends_at_memory_end')
             if op[0] == 'burn':
                 out.append('cpu_time_burnt_by_another_thread_before_a_clock_read')
             if op[0] in ('clock', 'random') and len(op) > 4 and op[4]:
